@@ -532,7 +532,7 @@ func itoa(k int) string {
 
 // ---- C13: no crash, offsets index the rune sequence ----
 
-func C13(g *ref.Grammar, names []string, mks []func() Parser, ast []bool, n, nsw int) {
+func C13(g *ref.Grammar, names []string, mks []func() Parser, ast []bool, hasActions bool, n, nsw int) {
 	in := NewInput("in", n, nsw)
 	for i, mk := range mks {
 		p := start(mk, in, true, -1)
@@ -547,6 +547,9 @@ func C13(g *ref.Grammar, names []string, mks []func() Parser, ast []bool, n, nsw
 					rt.Assert("token-span/"+names[i], 0 <= t.B && t.B <= t.E && t.E <= n)
 				}
 				_ = p.Sprint()
+				if hasActions {
+					_ = p.Execute()
+				}
 			}
 		} else {
 			mt := p.MaxTok()
